@@ -156,6 +156,8 @@ def _items():
     add('arr_fns',
         'pub fn san_arr(mut a: [i32; 3]) -> [i32; 3] { if a[0] > a[1] { let t = a[0]; a[0] = a[1]; a[1] = t; } a }\n'
         'pub fn pred_arr(a: &[i32; 3]) -> bool { a[2] != 7 }\n', '')
+    add('RE_STATIC',
+        'pub static RE_STATIC: ::std::sync::LazyLock<::regex::Regex> = ::std::sync::LazyLock::new(|| ::regex::Regex::new("^[a-z]+[0-9]?$").unwrap());\n', '')
     add('Meters',
         '#[derive(Debug, Clone, Copy, PartialEq)]\npub struct Meters(pub i32);\n'
         'impl<\'a> arbitrary::Arbitrary<\'a> for Meters { fn arbitrary(u: &mut arbitrary::Unstructured<\'a>) -> arbitrary::Result<Self> { Ok(Meters(u.arbitrary()?)) } }\n'
